@@ -49,6 +49,11 @@ SCHED_SETS: list[list[str]] = [
     ["borrow", "close"],
     ["borrow2", "close", "reap"],
     ["borrow_abandon", "borrow"],
+    # two worker commands sharing one pool (separate idle queues, one max_idle budget)
+    ["borrow", "borrow_b"],
+    ["borrow", "borrow_b", "reap"],
+    ["reap_then_borrow3"],
+    ["reap_then_borrow3", "borrow_b"],
 ]
 
 
@@ -134,7 +139,9 @@ def _run_sched(actor_set: list[str], max_idle: int, strategy: Any, mode: str = "
         if n > max_idle:
             info["violations"].append((f"idle_exceeds_max_idle:max_idle={max_idle}", f"{n} idle workers > max_idle={max_idle} after {where}"))
 
-    def borrow_once(me: str, abandon: bool = False) -> None:
+    key_b = ("worker", "other-cmd")
+
+    def borrow_once(me: str, abandon: bool = False, key: tuple[str, ...] = key) -> None:
         t = pool._borrow(key)
         s.log("borrowed", t.proc.pid, me)
         if t.owner is not None:
@@ -159,6 +166,22 @@ def _run_sched(actor_set: list[str], max_idle: int, strategy: Any, mode: str = "
             return lambda: (s.point("start"), borrow_once(me))
         if kind == "borrow2":
             return lambda: (s.point("start"), borrow_once(me), borrow_once(me))
+        if kind == "borrow_b":  # a borrower of a second worker command (its own idle queue, the same max_idle budget)
+            return lambda: (s.point("start"), borrow_once(me, key=key_b))
+        if kind == "reap_then_borrow3":
+
+            def reap_then() -> None:
+                # idle sweep over several command queues, then three workers out at once and returned one by one
+                s.point("start")
+                s.now += 11.0
+                pool._reap_expired()
+                quiescent_check("reap")
+                ts = [pool._borrow(k) for k in (key, key_b, key)]
+                for t in ts:
+                    env.pool._PooledTransport(t, pool).close()
+                    quiescent_check("return")
+
+            return reap_then
         if kind == "borrow_abandon":
             return lambda: (s.point("start"), borrow_once(me, abandon=True), borrow_once(me))
         if kind == "reap":
@@ -188,6 +211,8 @@ def _run_sched(actor_set: list[str], max_idle: int, strategy: Any, mode: str = "
 
     # setup (not scheduled): park *prefill* idle workers so borrowers compete for reuse
     held = [pool._borrow(key) for _ in range(prefill)]
+    if any(k in ("borrow_b", "reap_then_borrow3") for k in actor_set) and max_idle >= 2:
+        held.append(pool._borrow(key_b))  # an idle worker of the second command as well
     for t in held:
         env.pool._PooledTransport(t, pool).close()
     for i, kind in enumerate(actor_set):
